@@ -38,7 +38,7 @@ PROPS["C19"] = dict(
 PROPS["C18"] = dict(
     units=["revmaps"],
     kani_quick=["c18_attr_byte_roundtrip", "c18_attr_tuple_roundtrip", "c18_cp437_table_injective",
-                "c18_cp437_ascii_identity", "c18_atascii_table_injective_128", "c18_atascii_ascii_identity",
+                "c18_cp437_ascii_identity", "c18_cp437_to_unicode_is_table", "c18_atascii_to_unicode_is_table", "c18_viewdata_to_unicode_is_table", "c18_atascii_table_injective_128", "c18_atascii_ascii_identity",
                 "c18_petscii_pairs_distinct", "c18_petscii_alnum_closed", "c18_viewdata_alnum_identity",
                 "c18_viewdata_alnum_unique", "c18_mode7_alnum_identity", "c18_mode7_alnum_unique"],
     kani_bounded={},
